@@ -310,6 +310,204 @@ theorem occs_total (env : String → Bool) (members : List Name) (hne : members 
     | true => exact ⟨a ++ b, by simp [occs, hc, ha, hb]⟩
     | false => exact ⟨a' ++ b, by simp [occs, hc, ha', hb]⟩
 
+/-! ### which members the alias lists -/
+
+/-- knowledge about the member count that is true of `n` -/
+def LenKnow.trueOf (a : LenKnow) (n : Nat) : Prop := ∀ k b, a k = some b → decide (k < n) = b
+
+theorem know2_trueOf (n : Nat) (h : 2 ≤ n) : LenKnow.trueOf know2 n := by
+  intro k b hk
+  simp only [know2] at hk
+  split at hk
+  · simp only [Option.some.injEq] at hk; subst hk; simp; omega
+  · simp at hk
+
+theorem know1_trueOf : LenKnow.trueOf know1 1 := by
+  intro k b hk
+  simp only [know1, Option.some.injEq] at hk
+  exact hk
+
+theorem condA_sound (a : LenKnow) (env : String → Bool) (n : Nat) (ha : LenKnow.trueOf a n) :
+    ∀ (c : UCond) (b b' : Bool), condA a c = some b → evalCond env n c = some b' → b' = b := by
+  intro c
+  induction c with
+  | tt => intro b b' h1 h2; simp [condA] at h1; simp [evalCond] at h2; rw [h1, h2]
+  | lenGt k =>
+    intro b b' h1 h2
+    simp only [condA] at h1
+    simp only [evalCond, Option.some.injEq] at h2
+    rw [← h2]; exact ha k b h1
+  | var v => intro b b' h1; simp [condA] at h1
+  | unknown t => intro b b' h1; simp [condA] at h1
+  | not c ih =>
+    intro b b' h1 h2
+    simp only [condA, Option.map_eq_some_iff] at h1
+    simp only [evalCond, Option.map_eq_some_iff] at h2
+    obtain ⟨x, hx, rfl⟩ := h1
+    obtain ⟨y, hy, rfl⟩ := h2
+    rw [ih x y hx hy]
+  | and p q ihp ihq =>
+    intro r r' h1 h2
+    simp only [evalCond] at h2
+    cases hea : evalCond env n p with
+    | none => simp [hea] at h2
+    | some x =>
+      cases heb : evalCond env n q with
+      | none => simp [hea, heb] at h2
+      | some y =>
+        simp only [hea, heb, Option.some.injEq] at h2
+        subst h2
+        have hp : ∀ u, condA a p = some u → x = u := fun u hu => ihp u x hu hea
+        have hq : ∀ v, condA a q = some v → y = v := fun v hv => ihq v y hv heb
+        simp only [condA] at h1
+        rcases hca : condA a p with _ | (_ | _) <;> rcases hcb : condA a q with _ | (_ | _) <;>
+          simp [hca, hcb] at h1 hp hq <;> simp_all
+  | or p q ihp ihq =>
+    intro r r' h1 h2
+    simp only [evalCond] at h2
+    cases hea : evalCond env n p with
+    | none => simp [hea] at h2
+    | some x =>
+      cases heb : evalCond env n q with
+      | none => simp [hea, heb] at h2
+      | some y =>
+        simp only [hea, heb, Option.some.injEq] at h2
+        subst h2
+        have hp : ∀ u, condA a p = some u → x = u := fun u hu => ihp u x hu hea
+        have hq : ∀ v, condA a q = some v → y = v := fun v hv => ihq v y hv heb
+        simp only [condA] at h1
+        rcases hca : condA a p with _ | (_ | _) <;> rcases hcb : condA a q with _ | (_ | _) <;>
+          simp [hca, hcb] at h1 hp hq <;> simp_all
+
+theorem siteOccs_forget (members : List Name) (s : USite) (l : Lex) (os : List Occ)
+    (h : siteOccs members s l = some os) :
+    os.map Occ.forget = (liveSite s l).flatMap (siteForget members) := by
+  cases l with
+  | comment => simp only [siteOccs, Option.some.injEq] at h; subst h; simp [liveSite]
+  | code =>
+    cases s with
+    | className => simp only [siteOccs, Option.some.injEq] at h; subst h; simp [liveSite]
+    | firstMember =>
+      cases members with
+      | nil => simp [siteOccs] at h
+      | cons m ms => simp only [siteOccs, Option.some.injEq] at h; subst h; simp [liveSite, siteForget, Occ.forget]
+    | eachMember =>
+      simp only [siteOccs, Option.some.injEq] at h; subst h
+      simp [liveSite, siteForget, Occ.forget, Function.comp_def]
+    | other e => simp only [siteOccs, Option.some.injEq] at h; subst h; simp [liveSite, siteForget, Occ.forget]
+  | str =>
+    cases s with
+    | className => simp only [siteOccs, Option.some.injEq] at h; subst h; simp [liveSite]
+    | firstMember =>
+      cases members with
+      | nil => simp [siteOccs] at h
+      | cons m ms => simp only [siteOccs, Option.some.injEq] at h; subst h; simp [liveSite, siteForget, Occ.forget]
+    | eachMember =>
+      simp only [siteOccs, Option.some.injEq] at h; subst h
+      simp [liveSite, siteForget, Occ.forget, Function.comp_def]
+    | other e => simp only [siteOccs, Option.some.injEq] at h; subst h; simp [liveSite, siteForget, Occ.forget]
+
+/-- `shapeA` does what it says: when the knowledge is true of the member count, the rendered alias has
+exactly the live sites of the shape, in order, whatever the template variables are -/
+theorem shapeA_sound (a : LenKnow) (env : String → Bool) (members : List Name) (ha : LenKnow.trueOf a members.length) :
+    ∀ (tpl : UTpl) (sh : List USite) (os : List Occ), shapeA a tpl = some sh →
+      occs env members tpl = some os → os.map Occ.forget = sh.flatMap (siteForget members) := by
+  intro tpl
+  induction tpl with
+  | done => intro sh os h1 h2; simp [shapeA] at h1; simp [occs] at h2; subst h1; subst h2; simp
+  | site s l rest ih =>
+    intro sh os h1 h2
+    simp only [shapeA, Option.map_eq_some_iff] at h1
+    obtain ⟨r, hr, rfl⟩ := h1
+    simp only [occs] at h2
+    cases h3 : siteOccs members s l with
+    | none => simp [h3] at h2
+    | some x =>
+      cases h4 : occs env members rest with
+      | none => simp [h3, h4] at h2
+      | some y =>
+        simp only [h3, h4, Option.some.injEq] at h2
+        subst h2
+        rw [List.map_append, List.flatMap_append, siteOccs_forget members s l x h3, ih r y hr h4]
+  | ite c t e rest iht ihe ihr =>
+    intro sh os h1 h2
+    simp only [shapeA] at h1
+    cases hr : shapeA a rest with
+    | none => simp [hr] at h1
+    | some r =>
+      simp only [hr] at h1
+      simp only [occs] at h2
+      cases hc : evalCond env members.length c with
+      | none => simp [hc] at h2
+      | some bv =>
+        cases h4 : occs env members rest with
+        | none => cases bv <;> simp [hc, h4] at h2 <;> (split at h2 <;> simp at h2)
+        | some y =>
+          have hrest := ihr r y hr h4
+          -- the branch taken, and its shape
+          have key : ∀ (br : UTpl) (x : List Occ), occs env members br = some x →
+              (∀ shb, shapeA a br = some shb → x.map Occ.forget = shb.flatMap (siteForget members)) →
+              (∃ shb, shapeA a br = some shb ∧ sh = shb ++ r) →
+              (x ++ y).map Occ.forget = sh.flatMap (siteForget members) := by
+            intro br x _ hx hsh
+            obtain ⟨shb, hshb, rfl⟩ := hsh
+            rw [List.map_append, List.flatMap_append, hx shb hshb, hrest]
+          cases bv with
+          | true =>
+            cases h5 : occs env members t with
+            | none => simp [hc, h5] at h2
+            | some x =>
+              simp only [hc, h5, h4, Option.some.injEq] at h2
+              subst h2
+              refine key t x h5 (fun shb hs => iht shb x hs h5) ?_
+              cases hca : condA a c with
+              | none =>
+                simp only [hca] at h1
+                cases hst : shapeA a t with
+                | none => simp [hst] at h1
+                | some xs =>
+                  cases hse : shapeA a e with
+                  | none => simp [hst, hse] at h1
+                  | some ys =>
+                    simp only [hst, hse] at h1
+                    split at h1
+                    · simp only [Option.some.injEq] at h1; exact ⟨xs, rfl, h1.symm⟩
+                    · simp at h1
+              | some v =>
+                have hv := condA_sound a env members.length ha c v true hca hc
+                subst hv
+                simp only [hca, Option.map_eq_some_iff] at h1
+                obtain ⟨xs, hxs, rfl⟩ := h1
+                exact ⟨xs, hxs, rfl⟩
+          | false =>
+            cases h5 : occs env members e with
+            | none => simp [hc, h5] at h2
+            | some x =>
+              simp only [hc, h5, h4, Option.some.injEq] at h2
+              subst h2
+              refine key e x h5 (fun shb hs => ihe shb x hs h5) ?_
+              cases hca : condA a c with
+              | none =>
+                simp only [hca] at h1
+                cases hst : shapeA a t with
+                | none => simp [hst] at h1
+                | some xs =>
+                  cases hse : shapeA a e with
+                  | none => simp [hst, hse] at h1
+                  | some ys =>
+                    simp only [hst, hse] at h1
+                    split at h1
+                    · rename_i heq
+                      simp only [Option.some.injEq] at h1
+                      exact ⟨ys, rfl, by rw [← h1, heq]⟩
+                    · simp at h1
+              | some v =>
+                have hv := condA_sound a env members.length ha c v false hca hc
+                subst hv
+                simp only [hca, Option.map_eq_some_iff] at h1
+                obtain ⟨xs, hxs, rfl⟩ := h1
+                exact ⟨xs, hxs, rfl⟩
+
 /-! ### one pass of `sort_data_models` -/
 
 /-- a pass appends the names of the models it places, in their order; every model is placed or kept -/
@@ -417,6 +615,124 @@ theorem sortLoop_first_pass (n : Nat) (t : List Node) :
       refine ⟨(d :: ds).map (·.name), ?_⟩
       rw [h1, hp]; simp
     · exact sortLoop_prefix n _ _
+
+/-! ### the fuel suffices: an acyclic reference graph is sorted completely -/
+
+theorem ready_mono (s s' : List Name) (d : Node) (hss : ∀ x ∈ s, x ∈ s') (h : ready s d = true) :
+    ready s' d = true := by
+  simp only [ready, List.all_eq_true, Bool.or_eq_true, beq_iff_eq, List.contains_iff_mem] at h ⊢
+  intro r hr
+  rcases h r hr with h | h
+  · exact Or.inl h
+  · exact Or.inr (hss r h)
+
+theorem pass_kept_le (t : List Node) (s : List Name) : (pass s t).2.length ≤ t.length := by
+  obtain ⟨p, _, _, h3⟩ := pass_spec t s
+  have := h3.length_eq
+  simp only [List.length_append] at this
+  omega
+
+/-- a pass that meets a ready model places something -/
+theorem pass_progress : ∀ (t : List Node) (s : List Name) (d : Node), d ∈ t → ready s d = true →
+    (pass s t).2.length < t.length := by
+  intro t
+  induction t with
+  | nil => intro s d hd; simp at hd
+  | cons x xs ih =>
+    intro s d hd hr
+    by_cases hx : ready s x = true
+    · simp only [pass, hx, if_true, List.length_cons]
+      have := pass_kept_le xs (s ++ [x.name])
+      omega
+    · have hdx : d ∈ xs := by
+        rcases List.mem_cons.mp hd with h | h
+        · subst h; exact absurd hr hx
+        · exact h
+      have := ih s d hdx hr
+      simp only [pass, hx, Bool.false_eq_true, if_false, List.length_cons]
+      omega
+
+/-- every reference of a model still to be sorted is the model itself, already sorted, or a model
+still to be sorted of smaller rank: the reference graph is acyclic and closed -/
+def Ranked (rank : Name → Nat) (s : List Name) (t : List Node) : Prop :=
+  ∀ d ∈ t, ∀ r ∈ d.refs, r = d.name ∨ r ∈ s ∨ ∃ d' ∈ t, d'.name = r ∧ rank r < rank d.name
+
+theorem exists_min_rank (rank : Name → Nat) : ∀ (t : List Node), t ≠ [] →
+    ∃ d ∈ t, ∀ d' ∈ t, rank d.name ≤ rank d'.name := by
+  intro t
+  induction t with
+  | nil => intro h; exact absurd rfl h
+  | cons x xs ih =>
+    intro _
+    cases xs with
+    | nil => exact ⟨x, by simp, by intro d' hd'; simp at hd'; subst hd'; exact Nat.le_refl _⟩
+    | cons y ys =>
+      obtain ⟨m, hm, hmin⟩ := ih (by simp)
+      by_cases hxm : rank x.name ≤ rank m.name
+      · refine ⟨x, by simp, ?_⟩
+        intro d' hd'
+        rcases List.mem_cons.mp hd' with h | h
+        · subst h; exact Nat.le_refl _
+        · exact Nat.le_trans hxm (hmin d' h)
+      · refine ⟨m, List.mem_cons_of_mem _ hm, ?_⟩
+        intro d' hd'
+        rcases List.mem_cons.mp hd' with h | h
+        · subst h; omega
+        · exact hmin d' h
+
+theorem ranked_has_ready (rank : Name → Nat) (s : List Name) (t : List Node) (hne : t ≠ [])
+    (h : Ranked rank s t) : ∃ d ∈ t, ready s d = true := by
+  obtain ⟨d, hd, hmin⟩ := exists_min_rank rank t hne
+  refine ⟨d, hd, ?_⟩
+  simp only [ready, List.all_eq_true, Bool.or_eq_true, beq_iff_eq, List.contains_iff_mem]
+  intro r hr
+  rcases h d hd r hr with h1 | h1 | ⟨d', hd', hn, hlt⟩
+  · exact Or.inl h1
+  · exact Or.inr h1
+  · have := hmin d' hd'
+    rw [hn] at this
+    omega
+
+theorem ranked_pass (rank : Name → Nat) (s : List Name) (t : List Node) (h : Ranked rank s t) :
+    Ranked rank (pass s t).1 (pass s t).2 := by
+  obtain ⟨p, h1, _, h3⟩ := pass_spec t s
+  intro d hd r hr
+  have hdt : d ∈ t := h3.symm.subset (List.mem_append_right _ hd)
+  rcases h d hdt r hr with h' | h' | ⟨d', hd', hn, hlt⟩
+  · exact Or.inl h'
+  · right; left; rw [h1]; exact List.mem_append_left _ h'
+  · rcases List.mem_append.mp (h3.subset hd') with hp | hk
+    · right; left
+      rw [h1, ← hn]
+      exact List.mem_append_right _ (List.mem_map_of_mem hp)
+    · exact Or.inr (Or.inr ⟨d', hk, hn, hlt⟩)
+
+/-- THE FUEL SUFFICES: with at least as much fuel as models, an acyclic closed reference graph is
+sorted without the fall-back -/
+theorem sortLoop_complete (rank : Name → Nat) : ∀ (fuel : Nat) (s : List Name) (t : List Node),
+    t.length ≤ fuel → Ranked rank s t → (sortLoop fuel s t).2 = true := by
+  intro fuel
+  induction fuel with
+  | zero =>
+    intro s t hl _
+    have : t = [] := List.eq_nil_of_length_eq_zero (by omega)
+    subst this; simp [sortLoop]
+  | succ f ih =>
+    intro s t hl hr
+    cases t with
+    | nil => simp [sortLoop]
+    | cons d ds =>
+      obtain ⟨x, hx, hready⟩ := ranked_has_ready rank s (d :: ds) (by simp) hr
+      have hprog := pass_progress (d :: ds) s x hx hready
+      obtain ⟨p, h1, _, h3⟩ := pass_spec (d :: ds) s
+      have hlen := h3.length_eq
+      simp only [List.length_append] at hlen
+      have hgrow : ¬ ((pass s (d :: ds)).1.length == s.length) = true := by
+        rw [h1]
+        simp only [List.length_append, List.length_map, beq_iff_eq]
+        omega
+      simp only [sortLoop, hgrow, Bool.false_eq_true, if_false]
+      exact ih _ _ (by simp only [List.length_cons] at hl hprog; omega) (ranked_pass rank s _ hr)
 
 /-! ### `definedBefore` -/
 
@@ -544,10 +860,9 @@ theorem late_unbound (order : List Kind) (hou : Kind.union ∈ order) (defs : Li
   obtain ⟨x, hx, rfl⟩ := hm
   have hun : ({ name := u.name, refs := refs defs u } : Node) ∈ nodes order defs :=
     List.mem_map.mpr ⟨u, (mem_results order defs u).mpr ⟨hu, huk ▸ hou⟩, rfl⟩
-  have hlen : defs.length = (defs.length - 1) + 1 := by
-    cases defs with
-    | nil => simp at hu
-    | cons a as => simp
+  have hlen : (nodes order defs).length = ((nodes order defs).length - 1) + 1 := by
+    have := List.length_pos_of_mem hun
+    omega
   simp only [emitOrder, emit]
   rw [hlen]
   exact late_not_defined_before _ _ hnd x _ hx hun (refs_union defs u huk)
@@ -559,15 +874,17 @@ theorem early_bound (pre : List Kind) (defs : List Def)
     (huk : u.kind = .union) (d : Def) (hd : d ∈ defs) (hdk : d.kind ∈ pre)
     (he : early (pre ++ [.union]) defs d.name = true) :
     definedBefore (emitOrder (pre ++ [.union]) defs) d.name u.name = true := by
-  have hlen : defs.length = (defs.length - 1) + 1 := by
-    cases defs with
-    | nil => simp at hu
-    | cons a as => simp
+  have hun : ({ name := u.name, refs := refs defs u } : Node) ∈ nodes (pre ++ [.union]) defs :=
+    List.mem_map.mpr ⟨u, (mem_results _ defs u).mpr ⟨hu, by simp [huk]⟩, rfl⟩
+  have hlen : (nodes (pre ++ [.union]) defs).length = ((nodes (pre ++ [.union]) defs).length - 1) + 1 := by
+    have := List.length_pos_of_mem hun
+    omega
   simp only [early, firstPass, List.contains_iff_mem] at he
   simp only [emitOrder, emit]
   rw [hlen]
+  generalize (nodes (pre ++ [.union]) defs).length - 1 = n
   rw [nodes_union_last] at hnd he ⊢
-  exact early_defined_before _ _ _ hnd
+  exact early_defined_before n _ _ hnd
     { name := d.name, refs := refs defs d } { name := u.name, refs := refs defs u }
     (List.mem_map.mpr ⟨d, (mem_results pre defs d).mpr ⟨hd, hdk⟩, rfl⟩) he
     (List.mem_map.mpr ⟨u, List.mem_filter.mpr ⟨hu, by simp [huk]⟩, rfl⟩)
